@@ -392,4 +392,12 @@ def relocator_mesh_grid(mask, sub_size, pixel_scales, origin, grid, grid2, mesh_
     msg = _check_with_ties(mesh_grid, grid, cands, np.asarray(out), rel.sub_border_slim)
     if msg:
         return "mesh.relocated_mesh_grid_from: " + msg
+    # the same relocator in any order of use: relocating data grid A first must not change what the mesh relocation against
+    # data grid B does (and back again)
+    for la, ga, lb, gb in (("first", grid, "second", grid2), ("second", grid2, "first", grid)):
+        rel.relocated_grid_from(grid=aa.Grid2DIrregular(values=ga.copy()))
+        out = rel.relocated_mesh_grid_from(grid=aa.Grid2DIrregular(values=gb.copy()), mesh_grid=aa.Grid2DIrregular(values=mesh_grid.copy()))
+        msg = _check_with_ties(mesh_grid, gb, cands, np.asarray(out), rel.sub_border_slim)
+        if msg:
+            return "after relocated_grid_from(%s data grid), mesh relocation against the %s data grid: %s" % (la, lb, msg)
     return None
